@@ -10,7 +10,7 @@ import threading
 from harness import core, pickle_graphs as pg
 
 PROP = 'C14'
-PROOFS = ['theories/Pickle/StateProofs.v']
+PROOFS = ['theories/Pickle/StateLoops.v', 'theories/Pickle/StateSteps.v', 'theories/Pickle/StateProofs.v']
 HEADER = 'From PW Require Import Pickle.State Pickle.StateRun.\nOpen Scope Z_scope.\n'
 
 
@@ -58,36 +58,30 @@ SHAPES = [
     ('opt', 0, False, [(1, ('atom', 1))]),                                                          # no __setstate__
     ('opt', 0, True, [(1, ('pobj', [(1, ('opt', 1, True, [(3, ('atom', 9))]))]))]),                 # held by a plain object
     ('pobj', [(1, ('opt', 0, True, [(1, ('opt', 1, True, []))]))]),
+    ('opt', 0, True, [(1, ('opt', 1, True, [])), (2, ('lst', [('opt', 2, True, []), ('opt', 3, False, [])])), (3, ('opt', 4, True, [(1, ('opt', 5, True, []))])),
+                      (4, ('pobj', [(1, ('opt', 6, True, []))])), (5, ('ref', 1)), (6, ('ref', 1))]),       # everything at once
+    ('opt', 0, True, [(1, ('opt', 1, True, [(7, ('opt', 2, True, [(3, ('atom', 1))]))])), (2, ('ref', 2))]),   # first occurrence inside an earlier attribute (known finding)
+    ('opt', 0, True, [(1, ('opt', 1, True, [(3, ('atom', 9))])), (2, ('opt', 2, True, [(5, ('ref', 1))]))]),   # child only referred to (known finding with a dict patch)
 ]
+# patch dictionaries that go with the last two shapes when patches are in play
+SHAPE_PATCHES = {len(SHAPES) - 2: {1: {3: 11}, 2: {3: 22}}, len(SHAPES) - 1: {2: {5: {3: 7}}}}
 
 
 def one_call(term, pt):
-    """returns (observation, coq term, caller heap before, after)"""
+    """returns (observation, [coq terms])"""
     data, get_log = pg.dump_term(term)
-    if pt is None:
-        ob = pg.run_loads(data, None, {})
-        exp = f'(XErr {pg.ERRMAP.get(ob["err"], "EIndex")})' if ob['err'] else f'(XOk {pg.coq_restored(ob["restored"])} [])'
-        t = f'check_load ({pg.coq_node(term)}) [] None {exp}'
-        return dict(ob, get_log=get_log, heap_before=None, heap_after=None), t
-    real, addr_of, heap = pg.build_patches(pt)
-    real_dicts = []
-
-    def collect(d):
-        if (d, addr_of[id(d)]) not in [(x, a) for x, a in real_dicts]:
-            real_dicts.append((d, addr_of[id(d)]))
-            for v in d.values():
-                if isinstance(v, dict) and id(v) in addr_of:
-                    collect(v)
-    collect(real)
-    before = pg.read_heap(real_dicts, addr_of)
-    ob = pg.run_loads(data, real, addr_of)
-    after = pg.read_heap(real_dicts, addr_of)
-    mheap = dict(heap)
-    mheap[pg.CTX_ADDR] = list(heap[addr_of[id(real)]])
-    top = f'(Some {pg.CTX_ADDR}%nat)'
-    exp = f'(XErr {pg.ERRMAP.get(ob["err"], "EIndex")})' if ob['err'] else f'(XOk {pg.coq_restored(ob["restored"])} {pg.coq_heap(after)})'
-    t = f'check_load ({pg.coq_node(term)}) {pg.coq_heap(mheap)} {top} {exp}'
-    return dict(ob, get_log=get_log, heap_before=before, heap_after=after), t
+    real = pg.real_patches(pt) if pt is not None else None
+    before = pg.snapshot(real) if real is not None else None
+    ob = pg.run_loads(data, real, {})
+    after = pg.snapshot(real) if real is not None else None
+    exp = f'(XErr {pg.ERRMAP.get(ob["err"], "EIndex")})' if ob['err'] else f'(XOk {pg.coq_restored(ob["restored"])})'
+    ts = [f'check_load ({pg.coq_node(term)}) {pg.coq_pdict(pt)} {exp}']
+    # the dump side: which instances the pickler announced, with which children names (ids in pickling order)
+    ids = pg.opt_ids(term)
+    if len(ids) == len(ob['recreates']):
+        rec = '[' + '; '.join(f'({i}%nat, [{"; ".join(map(str, names))}], {"true" if flag else "false"})' for i, (names, flag) in zip(ids, ob['recreates'])) + ']'
+        ts.append(f'check_dump ({pg.coq_node(term)}) {rec}')
+    return dict(ob, get_log=get_log, heap_before=before, heap_after=after), ts
 
 
 def oracle(term, pt, ob, with_patches):
@@ -121,7 +115,7 @@ def main(tier, seed, replay=None, prop=PROP, with_patches=False):
     logging.disable(logging.CRITICAL)
     res = core.Result(prop, tier, seed)
     res.rule = ('hand-picked shapes (top-level, chains to depth 4, 2 and 3 siblings, container-held, top-level container, cycle, shared between '
-                'holders, same child under two names, no __setstate__, held by a plain object), seeded random graphs with up to 4 opt-in instances '
+                'holders, same child under two names, no __setstate__, held by a plain object, all of these at once, the two shapes of the known findings), seeded random graphs with up to 4 opt-in instances '
                 '(containers, plain holders, memo references, cycles) and chains of depth 1-5'
                 + ('; each with seeded patch dictionaries (top-level keys, existing / non-existing children, nested, reused between calls), call '
                    'histories of 2-4 loads on one thread including failing calls, each call compared with the same call on a fresh thread, and 4 '
@@ -129,7 +123,7 @@ def main(tier, seed, replay=None, prop=PROP, with_patches=False):
                 '. Non-trivial = at least two opt-in instances or a patch; distinct = distinct (graph term, patch term).')
     res.assumptions = ['pickle restores an object by calling the reduce callable first, then unpickling the state, then BUILD (__setstate__): the event order of Pickle/State.v',
                        'states of opt-in objects are dicts (non-dict states are exercised by the harness only)']
-    res.trusted.append('hand-written machine Pickle/State.v (pinned to state.py / remote_reduce by tools/pin.py); harness/pickle_graphs.py')
+    res.trusted.append('hand-written machine and pickler bookkeeping Pickle/State.v (pinned to state.py / remote_reduce by tools/pin.py; the announcements it predicts are compared with the reduce callables and children_names the real pickler emits); harness/pickle_graphs.py')
     core.prove(res, prop, [], PROOFS, run_files=['theories/Pickle/StateRun.v'])
     import sys
     sys.path.insert(0, core.REPO)
@@ -142,15 +136,15 @@ def main(tier, seed, replay=None, prop=PROP, with_patches=False):
         cases.append((pg.gen_chain(rnd, rnd.randint(1, 5)), None))
     if with_patches:
         pc = []
-        for t, _ in cases[:len(SHAPES)] + cases[len(SHAPES):len(SHAPES) + n // 2]:
-            pc.append((t, pg.gen_patches(rnd, t, deep=rnd.random() < 0.3)))
+        for i, (t, _) in enumerate(cases[:len(SHAPES)] + cases[len(SHAPES):len(SHAPES) + n // 2]):
+            pc.append((t, SHAPE_PATCHES[i] if i in SHAPE_PATCHES else pg.gen_patches(rnd, t, deep=rnd.random() < 0.3)))
         for _ in range(n // 2):
             t = pg.gen_chain(rnd, rnd.randint(1, 4))
             pc.append((t, pg.gen_patches(rnd, t, deep=rnd.random() < 0.3)))
         cases = pc
     terms, keep = [], []
     for term, pt in cases:
-        ob, ct = one_call(term, pt)
+        ob, cts = one_call(term, pt)
         feats = sorted(pg.features(term, pt))
         res.count('graph:' + term[0]); res.count('outcome:' + (ob['err'] or 'ok'))
         for f in feats:
@@ -161,7 +155,8 @@ def main(tier, seed, replay=None, prop=PROP, with_patches=False):
         if why:
             res.violation(dict(term=repr(term), patches=repr(pt), features=feats), why, observed=dict(err=ob['err'], restored=ob['restored']),
                           finding_matcher=known_matcher)
-        terms.append(ct); keep.append((term, pt, ob))
+        for ct in cts:
+            terms.append(ct); keep.append((term, pt, ob))
     direct_probes(res)
     if with_patches:
         histories(res, rnd, tier)
